@@ -1,4 +1,5 @@
 import Bxh.Model.Gov
+import Bxh.Proofs.GovTable
 /-!
 # C15 — proposals conclude only by their voting rule, once, with one vote per admin
 
@@ -261,5 +262,38 @@ example :
               | _ => false)
           | _ => false)
       | _ => false) = true := by decide
+
+-- ------------------------------------------------------------------------------------ the proposal table
+open Bxh.GovTable in
+/-- **finality over every history**: once a proposal is approved or rejected, no sequence of submissions
+(with priority locking), concluding ballots, electorate changes, withdrawals, forced ends, locks and unlocks
+changes that entry again — it is found unchanged (status, lock, object, priority) at the same position -/
+theorem C15_table_finality (t : Table) (ops : List GovTable.Op) (k : Nat) (e : Entry)
+    (hk : t[k]? = some e) (hf : e.status.final = true) : (run t ops)[k]? = some e :=
+  run_keeps t ops k e hk hf
+
+open Bxh.GovTable in
+/-- the same, stated on one history from the empty table: what is concluded after a prefix stays so after
+any continuation -/
+theorem C15_table_finality_history (ops1 ops2 : List GovTable.Op) (k : Nat) (e : Entry)
+    (hk : (run [] ops1)[k]? = some e) (hf : e.status.final = true) : (run [] (ops1 ++ ops2))[k]? = some e := by
+  rw [run_append]
+  exact run_keeps _ ops2 k e hk hf
+
+open Bxh.GovTable in
+/-- a ballot on a proposal that is not `proposed` (paused, approved, rejected) concludes nothing -/
+theorem C15_table_vote_needs_proposed (t : Table) (i : Nat) (a : Bool) (e : Entry)
+    (hi : t[i]? = some e) (hs : e.status ≠ .proposed) : step t (.conclude i a) = t := by
+  simp [step, hi, hs]
+
+open Bxh.GovTable in
+/-- non-vacuity and the repaired defect: a freeze (priority 2) is paused by a logout (priority 3), withdrawn while
+paused, then the logout is rejected.  With the repaired `unlockLowPriorityProposal` the withdrawn proposal stays
+rejected; the unrepaired one re-opened it (this is the history the correspondence run found on the real contract). -/
+example :
+    let ops : List GovTable.Op := [.submit "c1" 2, .submit "c1" 3, .withdraw 0, .conclude 1 false]
+    let t3 := run [] (ops.take 3)
+    (t3.map (·.status) = [.rejected, .proposed]) ∧ ((run [] ops).map (·.status) = [.rejected, .rejected]) ∧
+    ((handleResultUnrepaired (setAt t3 1 .rejected) 1).map (·.status) = [.proposed, .rejected]) := by decide
 
 end Bxh.Props.C15
